@@ -16,7 +16,8 @@ RULE = ("exhaustive success/failure scripts of the inner solves (all boolean seq
         "tier's length) x a grid of (theta_start, delta_theta_0, delta_theta_min) with dyadic values "
         "(exact comparison with the Gallina loop) and non-dyadic values (trace judged by the Coq "
         "trace_ok predicate with tol=1e-9); non-trivial = at least one failed solve or theta_start>0 "
-        "or a clamped step; distinct = distinct (options, script) pairs whose trace differs")
+        "or a clamped step; distinct = distinct (options, script) pairs whose trace differs"
+        ' Also: real transcribed inner problems whose equations depend on the homotopy parameter, solved by IPOPT under the loop for theta_start in {0, 0.25, 0.3, 0.5}: the returned trajectory solves the theta = 1 equations.')
 MODELLED = "src/rtctools/optimization/homotopy_mixin.py optimize() loop, seed() provenance, parameters() theta"
 NOT_MODELLED = "binary64 rounding of theta accumulation (non-dyadic options are judged by the trace predicate only); linear_collocation / transcription-cache side effects at theta = 0"
 ASSUMPTIONS = ["the inner optimize() is an oracle: any success/failure sequence"]
